@@ -615,6 +615,12 @@ class iindex(dict):
             common_count = numpy.full(numrows, numcols, dtype=fit_dtype(numcols))
             for rowids in gathered.get(default, []):
                 common_count[rowids] -= 1
+            # Cells holding a value that `precedence` does not mention are not
+            # common cells either.
+            for coord, rowid_lists in gathered.items():
+                if coord not in precedence:
+                    for rowids in rowid_lists:
+                        common_count[rowids] -= 1
         for coord in reversed(precedence[:-1]):
             if coord == new_common:
                 # Rows which already have ALL values at a lower precedence
